@@ -82,12 +82,42 @@ class HarnessTimeout(Exception):
     does not terminate inside one next() — reported like a crash, never waited for)."""
 
 
-TIMEOUTS = 0          # watchdog hits so far in this process
+TIMEOUTS = 0          # watchdog hits so far in this run (reset by `reset_watchdog`)
 MAX_TIMEOUTS = 3      # after that many, the ops modules skip the remaining cases
 
 
 def gave_up() -> bool:
     return TIMEOUTS >= MAX_TIMEOUTS
+
+
+def reset_watchdog():
+    """Called at the start of every run(): the counter belongs to one run, not to the process."""
+    global TIMEOUTS
+    TIMEOUTS = 0
+
+
+def skip(ctx) -> bool:
+    """True when the run has given up after MAX_TIMEOUTS watchdog hits; every skipped case is
+    counted (`skipped_after_watchdog` in the generator distribution of the evidence)."""
+    if TIMEOUTS >= MAX_TIMEOUTS:
+        ctx.stat("skipped_after_watchdog")
+        return True
+    return False
+
+
+def report_watchdog(ctx):
+    """End of run(): watchdog hits and the cases skipped after them go into the evidence as a NOTE,
+    and a run with skipped cases is never green (the first hits are reported as failures of the
+    property by the checks themselves; the difference recorded here makes sure the verdict is not
+    OK even if they were not)."""
+    k = ctx.stats.get("skipped_after_watchdog", 0)
+    if TIMEOUTS:
+        ctx.stat("watchdog_hits", TIMEOUTS)
+    if k:
+        ctx.note(f"NOTE: {k} case(s) were skipped after {TIMEOUTS} watchdog hits (a single library call did not "
+                 f"come back within the limit): the coverage figures of this run are those of a cut-short run")
+        ctx.corr_diff("watchdog-skips", dict(skipped=k, watchdog_hits=TIMEOUTS),
+                      f"{TIMEOUTS} library calls did not return within the watchdog limit", "every call returns")
 
 
 class time_limit:
@@ -107,11 +137,13 @@ class time_limit:
         return False
 
 
-def observe(gen, n: int):
-    """n calls of next(): (yields, end) with end in 'ret' | 'run' | 'raise <Class>'."""
+def observe(gen, n: int, limit: float = 5.0, count: bool = True):
+    """n calls of next(): (yields, end) with end in 'ret' | 'run' | 'raise <Class>'.
+    `limit` = watchdog seconds for the whole observation; `count=False`: a hit is expected by the
+    caller (it does not count towards giving up)."""
     ys, end = [], "run"
     try:
-        with time_limit():
+        with time_limit(limit):
             for _ in range(n):
                 try:
                     ys.append(next(gen))
@@ -125,7 +157,8 @@ def observe(gen, n: int):
                     break
     except HarnessTimeout:
         global TIMEOUTS
-        TIMEOUTS += 1
+        if count:
+            TIMEOUTS += 1
         end = "raise HarnessTimeout"
     return ys, end
 
@@ -312,11 +345,22 @@ def rand_names(rng: random.Random, n: int) -> list:
     return STATE_POOLS[rng.randrange(len(STATE_POOLS))](n)
 
 
-def rand_tm_parts(rng: random.Random, max_states: int = 4):
-    n = rng.randint(2, max_states)
+# tape alphabets containing the marks of MNTM.read_input_as_ntm's extended tape (C17, off the
+# domain of C17_verdict_char; open finding C17:mark-symbol-in-alphabet-or-input)
+MARK_ALPHABETS = [
+    ("0", "^", "#"), ("0", "_", "#"), ("0^", "", "#"), ("0_", "", "#"), ("01", "^_", "#"),
+    ("0", "", "_"), ("0", "", "^"), ("^_", "", "#"), ("0", "#", "_"),
+]
+
+
+def rand_tm_parts(rng: random.Random, max_states: int = 4, alphabets=None, min_states: int = 2):
+    n = rng.randint(min_states, max_states)
     names = rand_names(rng, n)
+    if len(names) < n:  # the small adversarial pools stop at 5 names
+        names = STATE_POOLS[rng.randrange(4)](n)
     n = len(names)
-    isy, extra, blank = ALPHABETS[rng.randrange(len(ALPHABETS))]
+    alphabets = alphabets or ALPHABETS
+    isy, extra, blank = alphabets[rng.randrange(len(alphabets))]
     tsy = list(isy + extra + blank)
     n_final = rng.choice([0, 1, 1, 1, 2]) if n > 2 else rng.choice([0, 1, 1])
     finals = set(names[n - n_final:]) if n_final else set()
@@ -336,8 +380,8 @@ def _dirs(rng: random.Random):
     return lambda: rng.choice("LRN")
 
 
-def rand_dtm_table(rng: random.Random, max_states: int = 4):
-    names, isy, tsy, blank, finals, nonfinal, init = rand_tm_parts(rng, max_states)
+def rand_dtm_table(rng: random.Random, max_states: int = 4, min_states: int = 2):
+    names, isy, tsy, blank, finals, nonfinal, init = rand_tm_parts(rng, max_states, None, min_states)
     dens = rng.choice([0.3, 0.6, 0.9, 1.0])
     pick_dir = _dirs(rng)
     wblank = rng.choice([0.0, 0.2, 0.6])
@@ -371,8 +415,8 @@ def mntm1_from(kw, table) -> MNTM:
                              for q, row in table.items()}, **kw)
 
 
-def rand_ntm(rng: random.Random, max_states: int = 4) -> NTM:
-    names, isy, tsy, blank, finals, nonfinal, init = rand_tm_parts(rng, max_states)
+def rand_ntm(rng: random.Random, max_states: int = 4, min_states: int = 2) -> NTM:
+    names, isy, tsy, blank, finals, nonfinal, init = rand_tm_parts(rng, max_states, None, min_states)
     dens = rng.choice([0.4, 0.7, 0.9, 1.0])
     pick_dir = _dirs(rng)
     wblank = rng.choice([0.0, 0.2, 0.6])
@@ -392,8 +436,9 @@ def rand_ntm(rng: random.Random, max_states: int = 4) -> NTM:
 
 
 def rand_mntm(rng: random.Random, max_states: int = 4, n_tapes: Optional[int] = None,
-              deterministic: Optional[bool] = None, allow_empty_list: bool = True) -> MNTM:
-    names, isy, tsy, blank, finals, nonfinal, init = rand_tm_parts(rng, max_states)
+              deterministic: Optional[bool] = None, allow_empty_list: bool = True, alphabets=None,
+              min_states: int = 2) -> MNTM:
+    names, isy, tsy, blank, finals, nonfinal, init = rand_tm_parts(rng, max_states, alphabets, min_states)
     nt = n_tapes or rng.choice([1, 1, 2, 2, 3])
     if deterministic is None:
         deterministic = rng.random() < 0.3
@@ -419,7 +464,9 @@ def rand_mntm(rng: random.Random, max_states: int = 4, n_tapes: Optional[int] = 
             for _ in range(k):
                 moves = tuple((blank if rng.random() < wblank else rng.choice(tsy), pick_dir()) for _ in range(nt))
                 res.append((rng.choice(names), moves))
-            row[key] = res
+            if len(res) >= 1 and rng.random() < 0.12:
+                res.insert(rng.randrange(len(res) + 1), rng.choice(res))  # a repeated entry: path multiplicity
+            row[key] = tuple(res) if rng.random() < 0.12 else res            # lists may be given as tuples
         if row or q == init or rng.random() < 0.5:
             table[q] = row
     table.setdefault(init, {})
@@ -428,8 +475,8 @@ def rand_mntm(rng: random.Random, max_states: int = 4, n_tapes: Optional[int] = 
 
 
 def rand_input(rng: random.Random, m, max_len: int = 4) -> str:
-    """Mostly over the input alphabet; sometimes containing the blank or another tape symbol
-    (the library never checks the input string against `input_symbols`)."""
+    """Mostly over the input alphabet; sometimes containing the blank or another tape symbol, sometimes
+    a symbol outside the tape alphabet (the library never checks the input string against `input_symbols`)."""
     isy = sorted(m.input_symbols)
     pool = isy
     r = rng.random()
@@ -438,7 +485,13 @@ def rand_input(rng: random.Random, m, max_len: int = 4) -> str:
     n = rng.choice([0, 1, 1, 2, 2, 3, 3, max_len])
     if not pool:
         return ""
-    return "".join(rng.choice(pool) for _ in range(n))
+    w = "".join(rng.choice(pool) for _ in range(n))
+    if w and rng.random() < 0.08:
+        # a symbol outside the tape alphabet (never '^' / '_': those are C17's mark family)
+        f = next(c for c in "%@$&" if c not in m.tape_symbols)
+        k = rng.randrange(len(w))
+        w = w[:k] + f + w[k + 1:]
+    return w
 
 
 def tiny_nondet_tables(tape_syms: Sequence[str] = "0#") -> Iterator[Dict[str, Dict[str, list]]]:
